@@ -145,7 +145,12 @@ func Seq(r gen.R, cols, rows int) string {
 	case 15, 16:
 		return SGR(r)
 	case 17:
-		switch r.Intn(8) {
+		switch r.Intn(10) {
+		case 8:
+			// queries a child asks the terminal (colours, clipboard)
+			return []string{"\x1b]11;?\x07", "\x1b]11;?\x1b\\", "\x1b]10;?\x07", "\x1b]4;1;?\x07", "\x1b]52;c;?\x07", "\x1b]52;c;aGk=\x07", "\x1b]52;;?\x1b\\", "\x1b]11\x07", "\x1b]52\x07"}[r.Intn(9)]
+		case 9:
+			return "\x1b]" + []string{"11", "52", "10", "4"}[r.Intn(4)] + ";" + Text(r) + "\x07"
 		case 0:
 			return "\x1b]0;" + Text(r) + "\x07"
 		case 1:
